@@ -436,6 +436,7 @@ def run_machine(case, d):
     paths = []
     for f in case['env']:
         p = os.path.join(d, f['name'])
+        os.makedirs(os.path.dirname(p), exist_ok=True)
         with open(p, 'wb') as fh:
             fh.write(render_file(f))
         paths.append(p)
@@ -1187,7 +1188,7 @@ def store_case(rng):
             'hdr': rng.choice(['', '{dbpath}/' + ' ' * 50, '{dbpath}/' + ' ' * 50 + ',b.fasta,a 2.fa', 'x' * rng.randint(0, 300)])}
 
 
-MACHINE_NAMES = ['b.fasta', 'a 2.fa', 'c.fasta', 'B.fasta', 'a.fasta', 'z', 'm.10.fa', 'm.9.fa']
+MACHINE_NAMES = ['b.fasta', 'a 2.fa', 'c.fasta', 'B.fasta', 'a.fasta', 'z', 'm.10.fa', 'm.9.fa', 'sub/n.fasta', 'sub/a.fasta', 'sub.fa']
 
 
 def machine_case(rng, mode=None):
@@ -1247,6 +1248,8 @@ def machine_case(rng, mode=None):
             ks = rng.sample(range(nenv), rng.randint(1, nenv))
             if rng.random() < 0.15:
                 ks = ks + [ks[0]]
+            elif rng.random() < 0.08:
+                ks = []                 # an add call that finds no file rewrites the index as it is
             ops.append({'op': 'add', 'ks': ks, 'force': mode == 'binary' and rng.random() < 0.8})
     # every history ends with the observables of the property on every record added so far
     ops += [{'op': 'files'}, {'op': 'len'}]
@@ -1338,7 +1341,13 @@ def _extra_checks(rng, tier, cov):
                 with open(p, 'wb') as fh:
                     fh.write(render_file(f))
                 idx = sugar.FastaIndex(os.path.join(d, 'i.sugarindex'), create=True, mode=mode)
-                idx.add(p, seek=seek, silent=True)
+                extra = k % 2          # every other time another file is registered first: the seeked file is file number 1
+                if extra:
+                    pe = os.path.join(d, 'e.fasta')
+                    with open(pe, 'wb') as fh:
+                        fh.write(b'>zz_extra_file\nAC\n')
+                    idx.add(pe, silent=True)
+                idx.add(p, seek=seek, silent=True, force=bool(extra))
                 want = [r['id'] for r in f['recs'][cut:]]
                 got = []
                 for r in f['recs'][cut:]:
@@ -1346,7 +1355,7 @@ def _extra_checks(rng, tier, cov):
                     got.append(s.id)
                     if str(s) != rec_seq(r)[1:7].upper():
                         got.append('wrong residues for ' + r['id'])
-                if len(idx) != len(want) or got != want:
+                if len(idx) != len(want) + extra or got != want:
                     yield {'case': dict(c, db=(mode == 'db')), 'impl': [len(idx), got],
                            'spec': 'add(seek=%d): expected records %r, got len %d and %r' % (seek, want, len(idx), got)}
                 if mode == 'db':
